@@ -51,8 +51,12 @@ def run_project(files, mode="run", entry="main.fer", target="native", keep=False
     for rel, text in files.items():
         p = os.path.join(d, rel)
         os.makedirs(os.path.dirname(p), exist_ok=True)
-        with open(p, "w") as f:
-            f.write(text)
+        if isinstance(text, bytes):
+            with open(p, "wb") as f:
+                f.write(text)
+        else:
+            with open(p, "w") as f:
+                f.write(text)
     r = Result()
     r.dir = d
     env = dict(os.environ)
